@@ -237,7 +237,7 @@ MANIFEST_TEXT["C01"] = dict(
          "Tied to the code by running every program natively and tunnelled (real sender, serde_json, real receiver) on two StrictHosts.",
     note=_RECV_NOTE + "Also environment: the `tracing` front end at subscriber-call level (enabled before new_span/event, registration before first use, child_of(None)=new_root).",
     technique="Lean 4 proof (simulation native host vs sender∘receiver over the program's call log) + differential correspondence (native vs tunnelled)")
-PROPS["C13"] = dict(suites=[("prog", {Q: 400, T: 30000}), ("receiver", {Q: 300, T: 20000})], rule=_PROG_RULE + "; every case runs under a host level filter (0..4) on both the native and the tunnelled host; "
+PROPS["C13"] = dict(suites=[("prog", {Q: 400, T: 30000}), ("receiver", {Q: 300, T: 6000})], rule=_PROG_RULE + "; every case runs under a host level filter (0..4) on both the native and the tunnelled host; "
     "receiver suite, C13 cases: well-formed streams with call sites of all levels under a host level filter (0..4), cut by persist keep / lose "
     "at quiescent and non-quiescent points (no valid event may be rejected, every event the host enables is delivered)")
 PROPS["C09"] = dict(suites=[("receiver", {Q: 150, T: 5000})],
